@@ -34,6 +34,8 @@ def scripted (S idx : Nat) (answers : List (Nat × Char)) : Hasher := fun code d
   -- 'p': picky — refuses data starting with 0xee with a custom error, hashes everything else
   let kind := (answers.find? (·.1 == code)).map (·.2)
   let kind := if kind == some 'p' then (if data.head? == some 0xee then some 'c' else some 'o') else kind
+  -- 'q': the same with "unknown code" as the refusal
+  let kind := if kind == some 'q' then (if data.head? == some 0xee then some 'u' else some 'o') else kind
   match kind with
   | some 'o' =>
     let d := [idx % 256] ++ le32 (data.sum % 4294967296) ++ le32 (data.length % 4294967296)
